@@ -3,10 +3,12 @@
 From Coq Require Import List Bool ZArith NArith.
 Import ListNotations.
 From Verif Require Import C19.Edn.
-From Verif Require Export Common.ListX C03.Model C03.Spec.
+From Verif Require Export Common.ListX C03.Model C03.Limits C03.Spec.
 Local Open Scope N_scope.
 
 (** [via] 0: obj.lrepr / reader.read_str, 1: pr-str / read-string (and read-seq for the count).
+    [lim]: print_length / print_level handed to obj.lrepr, *print-length* / *print-level* bound
+    around pr-str.
     [orc]: what CPython answers for the number-like tokens of the printed text whose canonical
     form differs from the token (float/Decimal/complex constructors followed by printing);
     every other token is its own canonical form.  [badre]: patterns re.compile rejects. *)
@@ -16,7 +18,7 @@ Definition zbig (neg : bool) (chunks : list N) : Z :=
   let n := fold_left (fun acc c => N.lor (N.shiftl acc 60) c) chunks 0 in
   if neg then (- Z.of_N n)%Z else Z.of_N n.
 
-Inductive case := Case (via : N) (pc : pctl) (v : value) (orc : list (str * str)) (badre : list str).
+Inductive case := Case (via : N) (pc : pctl) (lim : plim) (v : value) (orc : list (str * str)) (badre : list str).
 
 Inductive out :=
 | OOk (text : str) (n : N) (back : value) (refix : N) (det : bool)
@@ -41,8 +43,8 @@ Definition out_eqb (m i : out) : bool :=
   end.
 
 Definition spec_ok (c : case) (o : out) : bool :=
-  let '(Case _ pc v _ _) := c in
-  if negb (claims pc v) then true                   (* the printer does not claim readability here *)
+  let '(Case _ pc lim v _ _) := c in
+  if negb (claims_lim pc lim v) then true                   (* the printer does not claim readability here *)
   else match o with
        | OOk _ n back refix det => roundtrip_ok pc v n back refix det
        | _ => false
@@ -58,23 +60,24 @@ Definition orc_fn (orc : list (str * str)) (pfx : N) (t : str) : option str :=
 Definition kw_eofthrow : str := [101; 111; 102; 116; 104; 114; 111; 119].
 
 Definition model (c : case) : out :=
-  let '(Case via pc v orc badre) := c in
+  let '(Case via pc lim v orc badre) := c in
   if vexists long_int v then OPrintErr 2                       (* CPython's 4300-digit limit of str(int) *)
   else
-    let text := print pc v in
+    let text := printl pc lim v in
     match read_text (orc_fn orc 102) (orc_fn orc 100) (orc_fn orc 106) (@Some str) (@Some str) (fun p => negb (existsb (str_eqb p) badre)) text with
     | ROk [] => ONone text
     | ROk (b :: rest) =>
         if (via =? 1) && value_eqb false b (VKw None kw_eofthrow) then OReadErr text 2   (* F-03l *)
         else
         OOk text (N.of_nat (S (length rest))) b
-            (if p_meta pc && loc_carrier pc b then 0          (* the reader's location keys get printed *)
-             else if str_eqb (print pc b) text then 1 else 0)
+            (if negb (p_dup pc || lim_is_nil lim) then 2      (* abbreviated text, no claim: re-printing not modelled *)
+             else if p_meta pc && loc_carrier pc b then 0     (* the reader's location keys get printed *)
+             else if str_eqb (printl pc lim b) text then 1 else 0)
             true
     | RErr e => OReadErr text e
     | RFuel => OErr 9
     end.
 
 Definition tag (c : case) : N :=
-  let '(Case via pc v _ _) := c in
+  let '(Case via pc _ v _ _) := c in
   tag_of pc v + (if (via =? 1) && value_eqb false v (VKw None kw_eofthrow) then 256 else 0).
